@@ -2229,3 +2229,175 @@ func fieldIndexOf(t types.Type, name string) int {
 	}
 	return -1
 }
+
+// ---- the capacity the inserts test against is the room the block writer has (C16.12 / C15.19) ----
+//
+// writeDirectBlockAt copies the objects to buf[dataStart:] and refuses when they would pass the checksum at
+// buf[Size-4:]; blockCapacity(size) returns size - overhead. With 8-byte file offsets (the writer's format)
+// overhead = dataStart + Size - checksumOffset. With a smaller overhead an insert is accepted in memory, the header goes
+// to the file with the advanced counters and the block write then fails: an error after a partial write.
+func heapCapacityAgreesRule(c *Ctx, r *Result, rule string) {
+	capFn, wFn := c.FnOpt("structures.WritableFractalHeap.blockCapacity"), c.FnOpt("structures.WritableFractalHeap.writeDirectBlockAt")
+	construct := "structures.WritableFractalHeap.blockCapacity~writeDirectBlockAt#same-overhead"
+	if capFn == nil || wFn == nil {
+		r.Undec(rule, construct, "", "blockCapacity / writeDirectBlockAt not found")
+		return
+	}
+	var capOv map[string]int64
+	fb := c.FB(capFn)
+	instrs(capFn, func(in ssa.Instruction) {
+		if ret, ok := in.(*ssa.Return); ok && len(ret.Results) == 1 {
+			if sub, isSub := stripConv(ret.Results[0]).(*ssa.BinOp); isSub && sub.Op == token.SUB {
+				if _, isParam := stripConv(sub.X).(*ssa.Parameter); isParam {
+					capOv = namedLin(fb, fb.lin(sub.Y))
+				}
+			}
+		}
+	})
+	wb := c.FB(wFn)
+	var dataStart, chk *Lin
+	instrs(wFn, func(in ssa.Instruction) {
+		call, ok := in.(*ssa.Call)
+		if !ok {
+			return
+		}
+		if b, isB := call.Call.Value.(*ssa.Builtin); isB && b.Name() == "copy" && valueReadsField(call.Call.Args[1], "structures.WritableDirectBlock.Objects", 0) {
+			if sl, isSl := call.Call.Args[0].(*ssa.Slice); isSl && sl.Low != nil {
+				l := wb.lin(sl.Low)
+				dataStart = &l
+			}
+		}
+		name := ""
+		if call.Call.IsInvoke() {
+			name = call.Call.Method.Name()
+		} else if f := call.Call.StaticCallee(); f != nil {
+			name = f.Name()
+		}
+		if name == "PutUint32" && len(call.Call.Args) >= 2 {
+			if sl, isSl := call.Call.Args[len(call.Call.Args)-2].(*ssa.Slice); isSl && sl.Low != nil {
+				if cs, isCall := stripConv(call.Call.Args[len(call.Call.Args)-1]).(*ssa.Call); isCall && cs.Call.StaticCallee() != nil && cs.Call.StaticCallee().Name() == "ChecksumIEEE" {
+					l := wb.lin(sl.Low)
+					chk = &l
+				}
+			}
+		}
+	})
+	if capOv == nil || dataStart == nil || chk == nil {
+		r.Undec(rule, construct, c.Pos(capFn.Pos()), "capacity is not size - overhead, or the block writer's data start / checksum position was not found")
+		return
+	}
+	// dataStart - checksumOffset = overhead - Size
+	d := dataStart.add(*chk, -1)
+	w := namedLin(wb, d)
+	hasSize := w["Size"] == -1
+	delete(w, "Size")
+	same := hasSize && len(w) == len(capOv)
+	for k, v := range w {
+		if capOv[k] != v {
+			same = false
+		}
+	}
+	r.Check(same, rule, construct, c.Pos(capFn.Pos()), fmt.Sprintf("blockCapacity subtracts %v; the block writer places the objects and the checksum such that the room is Size - (%v) at 8-byte file offsets", capOv, w))
+}
+
+// namedLin: a linear form by normalised field names, the superblock's sizes taken as 8; the constant under "".
+func namedLin(fb *FB, l Lin) map[string]int64 {
+	out := map[string]int64{"": l.C}
+	for k, co := range l.T {
+		name := strings.TrimLeft(normSyms("+"+fb.symName(k)), "+")
+		if name == "OffsetSize" || name == "LengthSize" {
+			out[""] += 8 * co
+			continue
+		}
+		out[name] += co
+	}
+	return out
+}
+
+func init() {
+	txt := "the capacity the inserts test against is the room the block writer has: blockCapacity(size) = size - overhead where, at 8-byte file offsets, overhead equals the position at which writeDirectBlockAt places the objects plus the bytes from the checksum's position to the end of the block (with the checksum's 4 bytes left out an attribute that ends in the last 4 bytes of the block is accepted in memory, the heap header is written with the advanced counters, the block write fails: WriteAttribute returns an error and the heap on disk has changed)"
+	registry["C16"].Meta.Rules["C16.12"] = txt
+	registry["C16"].Rules = append(registry["C16"].Rules, func(c *Ctx, r *Result) { heapCapacityAgreesRule(c, r, "C16.12") })
+	registry["C15"].Meta.Rules["C15.19"] = txt + " (shared with C16.12)"
+	registry["C15"].Rules = append(registry["C15"].Rules, func(c *Ctx, r *Result) { heapCapacityAgreesRule(c, r, "C15.19") })
+}
+
+// ---- parsePath is only handed paths that have a slash (C16.13) ----
+//
+// parsePath slices at strings.LastIndex(path, "/"): for a path without a slash that is path[:-1], a panic in the middle of a
+// write call instead of an error. Every call of parsePath therefore stands behind a test of the leading slash on the same
+// value - a validate* function that makes that test, or strings.HasPrefix(p, "/") - in the function itself or, for a
+// parameter of an unexported function, at every call of that function.
+func parsePathGuardedRule(c *Ctx, r *Result, rule string) {
+	parse := c.FnOpt("hdf5.parsePath")
+	if parse == nil {
+		r.Undec(rule, "hdf5.parsePath#callers-establish-the-leading-slash", "", "hdf5.parsePath not found")
+		return
+	}
+	callers := map[*ssa.Function][]ssa.CallInstruction{}
+	for _, fn := range c.LibFuncs() {
+		for _, site := range callsIn(fn) {
+			if g := site.Common().StaticCallee(); g != nil {
+				callers[g] = append(callers[g], site)
+			}
+		}
+	}
+	var established func(site ssa.Instruction, v ssa.Value, depth int) (bool, string)
+	established = func(site ssa.Instruction, v ssa.Value, depth int) (bool, string) {
+		local := mustPrecede(site, func(x ssa.Instruction) bool {
+			call, ok := x.(*ssa.Call)
+			if !ok {
+				return false
+			}
+			g := call.Call.StaticCallee()
+			if g == nil || len(call.Call.Args) == 0 || call.Call.Args[0] != v {
+				return false
+			}
+			if g.Pkg != nil && g.Pkg.Pkg.Path() == "strings" && g.Name() == "HasPrefix" && len(call.Call.Args) == 2 {
+				if k, isK := call.Call.Args[1].(*ssa.Const); isK && k.Value != nil && k.Value.Kind() == constant.String && constant.StringVal(k.Value) == "/" {
+					return true
+				}
+			}
+			return strings.HasPrefix(g.Name(), "validate") && pathValidatorKinds(g)["leading-slash"]
+		})
+		if local {
+			return true, ""
+		}
+		p, isP := v.(*ssa.Parameter)
+		fn := site.Parent()
+		if !isP || depth >= 2 || exportedEntry(fn) {
+			return false, "no leading-slash test of the value before the call in " + c.Name(fn)
+		}
+		idx := paramIndex(fn, p)
+		if len(callers[fn]) == 0 || idx < 0 {
+			return false, c.Name(fn) + " has no resolved callers"
+		}
+		for _, cs := range callers[fn] {
+			args := cs.Common().Args
+			if idx >= len(args) {
+				return false, "argument not resolved at " + c.InstrPos(cs.(ssa.Instruction))
+			}
+			if ok, why := established(cs.(ssa.Instruction), args[idx], depth+1); !ok {
+				return false, why
+			}
+		}
+		return true, ""
+	}
+	n := 0
+	for _, site := range callers[parse] {
+		in := site.(ssa.Instruction)
+		n++
+		ok, why := established(in, site.Common().Args[0], 0)
+		r.Check(ok, rule, fmt.Sprintf("%s#parsePath-behind-a-leading-slash-test", c.Name(in.Parent())), c.InstrPos(in), firstNonEmpty(why, "the path handed to parsePath passed a leading-slash test (validate* or HasPrefix) on every path, here or at every caller"))
+	}
+	if n < 6 {
+		r.Shortfall(c, rule, fmt.Sprintf("%s: only %d calls of parsePath", rule, n))
+	}
+}
+
+func init() {
+	registry["C16"].Meta.Rules["C16.13"] = "a path without a slash is an error, not a panic: every call of parsePath (which slices at the last slash) stands behind a leading-slash test of the same value - a validate* function that makes it, or strings.HasPrefix(p, \"/\") - in the calling function or, for a parameter of an unexported function, at each of its callers (resolveObjectAddress without its own test panics with 'slice bounds out of range [:-1]' for the relative link target of CreateDenseGroup)"
+	registry["C16"].Rules = append(registry["C16"].Rules, func(c *Ctx, r *Result) { parsePathGuardedRule(c, r, "C16.13") })
+	registry["C16"].Meta.Rules["C16.14"] = registry["C04"].Meta.Rules["C04.11"] + " (an oversized WriteRaw must be refused before anything is written)"
+	registry["C16"].Rules = append(registry["C16"].Rules, func(c *Ctx, r *Result) { sizeDisciplineRule(c, r, "C16.14") })
+}
